@@ -41,9 +41,9 @@ var c14Pool = []string{"a.co", "a.com.cn", "a.com", "b.com", "c.com", "d.com", "
 // c14NestPool (family 1): wildcard domains that are textual prefixes of one another below one parameter, so that
 // deletions re-join nodes along a chain, and a domain with non-ASCII letters.
 var c14NestPool = []string{"{sub}.a.com", "{sub}.a.com.cn", "{sub}.a.org", "{sub}.a.co", "\u00e9cole.com", "{sub}.\u00e9cole.com",
-	"{Sub:\\D+}.B.net", // a name and a rule with capitals: only the text outside the braces is case-insensitive
-	"{t}.com", // competes with {sub}.a.com for x.a.com: whichever wins, deleting a third domain must not change it
-	"*.a.com", // a literal domain that begins with '*': only the Host "*" itself is the server-wide target
+	"{Sub:\\D+}.B.net",                       // a name and a rule with capitals: only the text outside the braces is case-insensitive
+	"{t}.com",                                // competes with {sub}.a.com for x.a.com: whichever wins, deleting a third domain must not change it
+	"*.a.com",                                // a literal domain that begins with '*': only the Host "*" itself is the server-wide target
 	"{sub:digit}.c.com", "{sub:digit}.c.org"} // two domains sharing a rule that RegisterInterceptor can turn from a regexp into an interceptor
 
 type c14Cfg struct {
@@ -441,6 +441,7 @@ func init() {
 			"histories of Add / Add(upper-cased) / Delete / Delete(upper-cased) / Delete(never added) / RegisterInterceptor over 12 literal and parameterised domains (six literals cross the index threshold) up to the depth bound, dedup on the reflective dump of the Hosts value",
 			"probes: per pool domain a witness host as is, upper-cased, with :80, with an empty port, with an invalid port, bracketed, bracketed with port, and all edit-distance-1 neighbours over {a . : x}; plus '', '*', unrelated hosts",
 			"a second family (depth+1) over wildcard domains that are textual prefixes of one another ({sub}.a.com, {sub}.a.com.cn, {sub}.a.org, {sub}.a.co) and domains with non-ASCII letters, added and deleted in mixed case; probes also carry a lone bracket and capitals in part of the name",
+			"fixed trials: domains with two and three parameters and capitals between them (Add as written, Delete lower-cased); an interceptor parameter followed by literal text that overlaps itself ({sub:dotted}.co.co against x.co.co.co)",
 			"oracle: accept iff ref.Resolve(live domain patterns, normalise(host)) is non-empty, parameters exactly that pattern's; rejecting leaves no parameters; Delete leaves every other answer unchanged")
 		// domain names are case-insensitive wherever they are literal text - also after a brace that is never closed
 		for _, d := range []string{"x{ABC.net", "Y}{AB.net", "{sub}.Z{C.net"} {
@@ -467,7 +468,36 @@ func init() {
 			if want := `match=true params={id="123",tld="net"}`; bad || got != want {
 				rc.Report(explore.Violation{Property: "C14", Clause: "C14.match", Class: "interceptor-domain-joins-earlier-regexp-node",
 					History: []string{`NewHosts("{id:digit}.c.com", "{id:digit}.c.org")`, `RegisterInterceptor(digit)`, `Add("{id:digit}.c.{tld}")`},
-					Probe: `Match(Host="123.c.net")`, Observed: fmt.Sprintf("%s (Add panicked: %v)", got, bad), Expected: want + ": in a domain added after the registration {id:digit} is an interceptor parameter"})
+					Probe:   `Match(Host="123.c.net")`, Observed: fmt.Sprintf("%s (Add panicked: %v)", got, bad), Expected: want + ": in a domain added after the registration {id:digit} is an interceptor parameter"})
+			}
+		}
+		// several parameters with capitals in the literal text between them: every stretch outside braces is case-insensitive
+		for _, d := range []string{"{t}.API.{r}.Example.net", "{t}.Api.{r}.B.{s}.Net", "X.{t}.Y.{r}"} {
+			h := mux.NewHosts(false)
+			host := strings.NewReplacer("{t}", "x1", "{r}", "eu", "{s}", "k").Replace(strings.ToLower(d))
+			_, bad := Guard(func() { h.Add(d) })
+			before := probeHost(h, host+":443").String()
+			_, bad2 := Guard(func() { h.Delete(lowerOutsideBraces(d)) })
+			after := probeHost(h, host).String()
+			rc.Add("states", 2)
+			if bad || bad2 || !strings.HasPrefix(before, "match=true") || !strings.HasPrefix(after, "match=false") {
+				rc.Report(explore.Violation{Property: "C14", Clause: "C14.match", Class: "multi-parameter-domain-case-sensitive", History: []string{fmt.Sprintf("Add(%q)", d), fmt.Sprintf("Delete(%q)", lowerOutsideBraces(d))},
+					Probe: fmt.Sprintf("Match(Host=%q) after Add and Match(Host=%q) after Delete", host+":443", host), Observed: fmt.Sprintf("after Add: %s (panic=%v); after Delete: %s (panic=%v)", before, bad, after, bad2), Expected: "match=true, then match=false: the text between two parameters is literal and case-insensitive"})
+			}
+		}
+		// an interceptor parameter followed by literal text that overlaps itself: every occurrence of that text is a
+		// candidate end of the value, also one that starts inside the occurrence the interceptor has just refused
+		{
+			h := mux.NewHosts(false)
+			h.RegisterInterceptor(func(v string) bool { return strings.Contains(v, ".") }, "dotted")
+			_, bad := Guard(func() { h.Add("{sub:dotted}.co.co") })
+			rc.Add("states", 1)
+			for _, host := range []string{"x.co.co.co", "X.CO.co.co:8080"} {
+				got := probeHost(h, host).String()
+				if want := `match=true params={sub="x.co"}`; bad || got != want {
+					rc.Report(explore.Violation{Property: "C14", Clause: "C14.match", Class: "interceptor-overlapping-suffix", History: []string{`RegisterInterceptor(contains a dot, "dotted")`, `Add("{sub:dotted}.co.co")`},
+						Probe: fmt.Sprintf("Match(Host=%q)", host), Observed: fmt.Sprintf("%s (Add panicked: %v)", got, bad), Expected: want + `: "x" is refused, "x.co" followed by ".co.co" is the first split the interceptor accepts`})
+				}
 			}
 		}
 		explore.BFS(rc, "c14/expand", c14Cfg{}, depth, true, "C14")
